@@ -4,8 +4,8 @@ import json
 META = {
     "level": "exploration",
     "technique": "TLA+ acceptance rule over abstract certificates; TLC checks the transcribed parse_unverified/verify procedure against the rule for every abstract certificate with <= 2 (3) extensions (canary: keep the last of two libp2p extensions); the rule is evaluated by TLC on records of the real certificate::parse for rcgen-built structural variants and byte mutations of really generated certificates",
-    "text": "Abstract certificate = (self-signed?, validity now/expired/not-yet, sequence of extensions: libp2p extension with host H/X, signature ok / over wrong message / by another key, key decodable?, critical? | unknown extension critical?). TLC enumerates all of them up to 2 extensions (3 in thorough) and checks that the transcribed procedure accepts exactly when the rule holds and then reports the extension's host key. The driver builds each abstract certificate with rcgen (extension DER encoded independently of libp2p-tls; host keys ed25519/secp256k1/ecdsa; certificate keys P-256/P-384/Ed25519) and feeds it to the real parse; plus every single-byte mutation (bit flips, 0xff, truncations, appended bytes) of one really generated certificate per host key type: accepted implies peer id unchanged.",
-    "note": "Disallowed signature algorithms (SHA-1, MD5, explicit curve parameters) cannot be produced with rcgen offline and are not covered; RSA host keys not covered. Exploration level: the model is an enumerator + oracle.",
+    "text": "Abstract certificate = (self-signed?, validity now/expired/not-yet, sequence of extensions: libp2p extension with host H/X, signature ok / over wrong message / by another key, key decodable?, critical? | unknown extension critical?). TLC enumerates all of them up to 2 extensions (3 in thorough) and checks that the transcribed procedure accepts exactly when the rule holds and then reports the extension's host key. The driver builds each abstract certificate with rcgen (extension DER encoded independently of libp2p-tls; host keys ed25519/secp256k1/ecdsa (+rsa in thorough); certificate keys P-256/P-384/Ed25519) and feeds it to the real parse; plus every single-byte mutation (bit flips, 0xff, truncations, appended bytes) of one really generated certificate per host key type: accepted implies peer id unchanged.",
+    "note": "Disallowed signature algorithms (SHA-1, MD5, explicit curve parameters) cannot be produced with rcgen offline and are not covered; RSA host keys (fixed test keys) only in the thorough tier. Exploration level: the model is an enumerator + oracle.",
     "design_ref": "6/C18",
 }
 
